@@ -11,6 +11,7 @@ a pristine process on an empty cache):
   O2 every probe (unpack of 24 byte strings, pack of 8 value tuples) has the twin's outcome
   O3 the installed pack_impl/unpack_impl carry the twin's code (or are the generic Packet methods)
 """
+import errno
 import os
 import sys
 import threading
@@ -28,6 +29,28 @@ from .fsseam import SEAM, SimCrash, REAL, REAL_IO_OPEN
 
 WATCHDOG_S = 30.0
 MAX_CALLS_PER_PROCESS = 2500        # an undisturbed definition of three classes makes ~150 file-system calls
+
+
+def io_errnos_for(kind):
+    """the errors a call of this kind can meet on a real system while everything else keeps working"""
+    E = errno
+    if kind == "write":
+        return [E.ENOSPC, E.EIO, E.EDQUOT]
+    if kind.startswith("open"):
+        return [E.ENOSPC, E.EACCES, E.EMFILE, E.EROFS] if ("creat" in kind or "trunc" in kind) else [E.EMFILE, E.EACCES, E.EIO]
+    if kind in ("read", "read-file", "fsync", "ftruncate", "truncate"):
+        return [E.EIO]
+    if kind in ("remove", "rmdir", "chmod", "utime"):
+        return [E.EACCES, E.EROFS]
+    if kind in ("replace", "rename", "link"):
+        return [E.EACCES, E.ENOSPC, E.EIO]
+    if kind in ("mkdir", "makedirs"):
+        return [E.EACCES, E.ENOSPC]
+    if kind in ("stat", "lstat", "listdir"):
+        return [E.EACCES, E.EIO]
+    if kind in ("lock-ex", "lock-sh"):
+        return [E.ENOLCK]
+    return []            # start, close, unlock, sleep, access
 
 
 class NeverFinished(BaseException):
@@ -55,7 +78,28 @@ VARIANTS = [
     ("v15", "", "    c = Int(1).describe(PlainDesc())\n    b = Int(2)\n"),
     ("v16", "", "    c = Int(1).describe(PackDesc())\n    b = Int(2)\n"),
     ("v17", "", "    c = Int(1).describe(BothDesc())\n    b = Int(2)\n"),
+    # declarations that differ only in a parameter that (on the pinned tree) lives in a field object of the class, not
+    # in the generated text: whatever an implementation moves into the cached module must be covered by its validation
+    ("v18", "'align': 2", "    a = Int(1)\n    b = Int(2)\n"),
+    ("v19", "'align': 4", "    a = Int(1)\n    b = Int(2)\n"),
+    ("v20", "'align': 8", "    a = Int(1)\n    b = Int(2)\n"),
+    ("v21", "", "    a = Int(1)\n    b = Int(2).at(4)\n"),
+    ("v22", "", "    a = Int(1)\n    b = Int(2).at(6)\n"),
+    ("v23", "", "    a = Int(1)\n    b = Int(1).repeated(2)\n"),
+    ("v24", "", "    a = Int(1)\n    b = Int(1).repeated(3)\n"),
+    ("v25", "", "    a = Int(1)\n    b = Int(2).when(a == 1)\n"),
+    ("v26", "", "    a = Int(1)\n    b = Int(2).when(a == 2)\n"),
+    ("v27", "", "    d = Data(until_marker=b';')\n    b = Int(1)\n"),
+    ("v28", "", "    d = Data(until_marker=b',')\n    b = Int(1)\n"),
+    ("v29", "", "    a = Int(1, default=7)\n    b = Int(2)\n"),
+    ("v30", "", "    a = Int(1, default=9)\n    b = Int(2)\n"),
+    ("v31", "", "    a = Int(1)\n    b = Int(2).aligned(4)\n"),
+    ("v32", "", "    a = Int(1)\n    b = Int(2).aligned(8)\n"),
 ]
+PARAMS = ["v%d" % i for i in range(18, 33)]
+# groups whose members must differ in what the probes observe (checked by `check selftest` on the unchanged tree)
+MUST_DIFFER = [["v1", "v2", "v3", "v4", "v5", "v11", "v12", "v13", "v14"], ["v15", "v16", "v17"], ["v18", "v19", "v20"], ["v21", "v22"],
+               ["v23", "v24"], ["v25", "v26"], ["v27", "v28"], ["v29", "v30"], ["v31", "v32"], ["v1", "v18", "v21", "v23", "v25", "v29"]]
 VNAMES = [v[0] for v in VARIANTS]
 VBY = {v[0]: v for v in VARIANTS}
 
@@ -83,7 +127,8 @@ def defs_text(spec):
 PROBE_RAWS = [b"", b"\x00", b"\x01", b"\xff", b"\x01\x02", b"\x80\x00", b"\x01\x02\x03", b"\x00\x01\x00", b"\xff\xfe\xfd",
               b"\x80\x81\x82", b"\x02ab", b"\x03ab", b"\x01\x02\x03\x04", b"\x00\x00\x00\x00", b"\xf0\x0f\xaa\x55",
               b"\x04abcd", b"\x02abcd", b"\x01\x02\x03\x04\x05", b"\x05abcde", b"\x01\x02\x03\x04\x05\x06",
-              b"\xff\xff\xff\xff\xff\xff", b"\x80\x00\x00\x80\x00\x01", b"\x06abcdef", b"\x7f\x80\x7f\x80\x7f\x80"]
+              b"\xff\xff\xff\xff\xff\xff", b"\x80\x00\x00\x80\x00\x01", b"\x06abcdef", b"\x7f\x80\x7f\x80\x7f\x80",
+              b"ab;cd,e", b"a,b;c", b"\x01\x02\x03\x04\x05\x06\x07\x08", b"\x02.......\x11\x12", b"\x01...\x21\x22..\x31\x32"]
 PROBE_VALS = [(0, 0), (1, 2), (255, 255), (127, 128), (-1, -1), (256, 1), (1, 65535), (65535, 70000)]
 
 
@@ -111,7 +156,13 @@ def behave(cls, PacketError):
         except Exception as e:
             out.append(("unpack(%r)" % raw, "raised %s" % type(e).__name__))
     try:
-        names = _visible(cls())
+        p0 = cls()
+        names = _visible(p0)
+        vals0 = tuple((n, getattr(p0, n)) for n in names)
+        try:
+            out.append(("ctor", (vals0, p0.pack())))
+        except PacketError:
+            out.append(("ctor", (vals0, "PacketError")))
     except Exception as e:
         names = []
         out.append(("ctor", "raised %s" % type(e).__name__))
@@ -120,8 +171,11 @@ def behave(cls, PacketError):
         try:
             p = cls()
             for n, v in zip(names, vals):
-                if isinstance(getattr(p, n), bytes):
+                cur = getattr(p, n)
+                if isinstance(cur, bytes):
                     v = b"x" * (abs(v) % 5)
+                elif isinstance(cur, list):
+                    v = [abs(v) % 256] * max(1, len(cur))
                 setattr(p, n, v)
             out.append((label, p.pack()))
         except PacketError:
@@ -194,6 +248,8 @@ class SimProc:
         self.opcount = 0
         self.calls = 0
         self.mid_write = False
+        self.inject = None            # errno the next file-system call of this process fails with (decided by the scheduler)
+        self.io_errors = 0            # how many of its calls failed that way
         self.rstate = None            # state of the `random` module as this process sees it
         self.optimize = 0             # 1: this process runs as `python -O` (bisturi's asserts are compiled out)
         self.fileless = False         # the defining module has no __file__ (interactive session, exec'd code): bisturi then
@@ -219,6 +275,9 @@ class World:
         self.deaths = 0
         self.max_deaths = 0
         self.crash_den = 0            # 0: no crashes in this run; else chance 1/crash_den per seam call
+        self.ioerr_den = 0            # 0: no failing calls in this run; else chance 1/ioerr_den per eligible seam call
+        self.ioerrs = 0
+        self.max_ioerrs = 0
         self.clock_faults = True
         self.timed_out = False
         self.splits = 0
@@ -332,6 +391,11 @@ class World:
         if proc.dead:
             SEAM.kill_fds_of(proc)
             raise SimCrash()
+        if proc.inject is not None:
+            e, proc.inject = proc.inject, None
+            proc.io_errors += 1
+            SEAM.log(proc, "%s %s %s-> %s (injected: the call fails, the process goes on)" % (kind, SEAM.norm(rel), info + " " if info else "", errno.errorcode[e]))
+            raise OSError(e, os.strerror(e))
 
     # ---- process bodies ----------------------------------------------------------------
     def spawn(self, label, bytecode):
@@ -443,6 +507,13 @@ class World:
                     kind = "torn-write" if (nxt.pending[0] == "write" and getattr(nxt, "mid_write", False)) else "crash-before-op"
                     st["fault:" + kind] += 1
                     SEAM.log(nxt, "KILLED before %s %s" % (nxt.pending[0], SEAM.norm(nxt.pending[1])))
+            # or does the call fail (disk full, I/O error, no permission, descriptor table full) and the process go on?
+            if not nxt.dead and self.ioerr_den and self.ioerrs < self.max_ioerrs:
+                errs = io_errnos_for(nxt.pending[0])
+                if errs and ch.chance("io-error?", 1, self.ioerr_den, stream="sched"):
+                    nxt.inject = errs[ch.draw("errno", len(errs), stream="sched")]
+                    self.ioerrs += 1
+                    st["fault:io-error-" + errno.errorcode[nxt.inject]] += 1
             self.swap_in(nxt)
             nxt.go.release()
             ok = self.back.acquire(timeout=WATCHDOG_S)
@@ -548,7 +619,11 @@ class CacheEngineBase(Engine):
 
     def check_proc(self, world, proc, label_prop):
         """O1-O3 for every class this process defined; returns a violation tuple or None"""
-        if proc.define_errors:
+        if proc.define_errors and proc.io_errors:
+            # a process some of whose file-system calls were made to fail may fail to define its class (the property does
+            # not speak about it); whatever it DID define is still held to O2/O3: fail, yes; wrong code, never
+            world.out.stats["probe:definition-failed-after-failing-call"] += 1
+        elif proc.define_errors:
             return (label_prop + ".O1-definition-raised", proc.label.rstrip("0123456789"), "%s: %s" % (proc.label, proc.define_errors[0]))
         found = [None]
 
@@ -714,13 +789,13 @@ def _draw_spec(ch, label="defs"):
 
 
 SAME_SIZE = ["v1", "v2", "v3", "v4", "v5"]      # their generated modules have the same length: the most confusable
-GROUPS = [SAME_SIZE, ["v15", "v16", "v17"], ["v1", "v6", "v7", "v8", "v9", "v10"], VNAMES]
+GROUPS = [SAME_SIZE, ["v15", "v16", "v17"], ["v1", "v6", "v7", "v8", "v9", "v10"], VNAMES, PARAMS]
 HOME = [None]          # the group this run favours (drawn once per run by _home_group)
 
 
 def _home_group(ch):
     """swarm style: a run concentrates on one set of mutually confusable declarations"""
-    HOME[0] = GROUPS[ch.weighted("home-group", [5, 2, 1, 3])]
+    HOME[0] = GROUPS[ch.weighted("home-group", [5, 2, 1, 3, 3])]
 
 
 def _draw_variant(ch, label):
@@ -755,7 +830,7 @@ class CacheSeqEngine(CacheEngineBase):
     chunks = {"quick": 20, "thorough": 250}
     rule = ("each case is a Chooser-generated history of 2..8 steps over one scratch project: DEFINE (a fresh simulated process, or "
             "one that is still alive, executes defs.py / defs_x.py as it is on disk; bytecode caching on or off per process), EDIT "
-            "(defs.py rewritten to 1-3 same-named declarations out of a family of 17 confusable variants, optionally the colliding "
+            "(defs.py rewritten to 1-3 same-named declarations out of a family of 32 confusable variants, optionally the colliding "
             "x_Foo), TICK (storage clock stays / +1..3 s / steps back), JANITOR (delete .py only, .pyc only, the whole __pkts__, touch, "
             "restore an older copy with its old mtime); every mutating file call additionally draws a clock tie / step. distinct = "
             "digest of the abstract step list; non-trivial = at least two DEFINEs of different declaration lists and a cache file "
@@ -998,18 +1073,21 @@ class CacheConcEngine(CacheEngineBase):
     chunks = {"quick": 20, "thorough": 250}
     rule = ("each case is one simulated run: a drawn prior cache state (empty, or left by a fault-free process that defined another "
             "declaration list, with or without bytecode), then 2-3 simulated processes executing defs.py (1-3 same-named "
-            "declarations out of 17 confusable variants) concurrently - every file-system call is a yield point where the Chooser "
-            "picks who runs next, whether the clock ties/steps and whether the process dies there (<=2 deaths, writes cut at "
-            "chosen byte offsets so that death leaves torn files) - then 1-2 later fault-free processes, possibly after an edit. "
+            "declarations out of 32 confusable variants) concurrently - every file-system call is a yield point where the Chooser "
+            "picks who runs next, whether the clock ties/steps, whether the process dies there (<=2 deaths, writes cut at "
+            "chosen byte offsets so that death leaves torn files) and, in a quarter of the runs, whether the call fails with an "
+            "errno it can meet on a healthy system (<=3 failing calls: ENOSPC/EDQUOT/EIO/EACCES/EMFILE/EROFS/ENOLCK) - then 1-2 later fault-free processes, possibly after an edit. "
             "distinct = digest of (declaration lists, process set, kill points); non-trivial = at least two processes really "
             "interleaved (>=2 switches) or a process died after its first mutating call")
     assumptions = CacheSeqEngine.assumptions + [
-        "the process that was itself killed is the only one allowed not to define its class",
+        "the process that was itself killed is the only one allowed not to define its class - and a process some of whose own "
+        "file-system calls were made to fail (the statement does not speak about it; whatever it did define is checked in full)",
         "process death loses nothing that was already written (a dying process is not a power cut): fsync is a no-op",
         "nothing is required of which process's file ends up on disk"]
     expected_probes = ["concurrent-updates", "two-writers-one-name", "read-a-file-another-process-wrote",
                        "pyc-written-after-source-changed", "death-after-mutation", "torn-file-left-behind",
-                       "later-process-hit-cache", "later-process-rewrote-cache", "prior-state-nonempty", "edit-between-process-starts"]
+                       "later-process-hit-cache", "later-process-rewrote-cache", "prior-state-nonempty", "edit-between-process-starts",
+                       "run-with-failing-calls"]
 
     def execute(self, scenario, ch):
         if scenario.get("mode") == "enum":
@@ -1049,19 +1127,26 @@ class CacheConcEngine(CacheEngineBase):
             st["fault:same-pid-and-random-seed"] += 1
         world.max_deaths = ch.weighted("max-deaths", [2, 3, 1])
         world.crash_den = [0, 40, 15][ch.weighted("crash-rate", [1, 2, 2])] if world.max_deaths else 0
+        if focus == "failing-calls":
+            world.max_deaths, world.crash_den = 0, 0      # developer aid: no process ever dies, calls only fail
         if focus == "colliding-writers":
             world.max_deaths, world.crash_den = 1, 10
+        elif focus == "failing-calls" or ch.chance("failing-calls", 1, 4):
+            # a quarter of the ordinary runs: some file-system calls FAIL (and the process carries on), see io_errnos_for
+            world.max_ioerrs = 1 + ch.draw("max-io-errors", 3)
+            world.ioerr_den = [12, 5][ch.draw("io-error-rate", 2)]
+            st["probe:run-with-failing-calls"] += 1
         if focus == "colliding-writers" or ch.chance("edit-while-running", 1, 3):
             # same class names as the text the running processes executed (bisturi looks the class up in the file
             # on disk through inspect while defining it; a class that vanished from the file is another matter)
-            espec = [("Foo", SAME_SIZE[ch.draw("focus-c", 5)])] if focus else [(c, _draw_variant(ch, "mid")) for c, _ in spec]
+            espec = [("Foo", SAME_SIZE[ch.draw("focus-c", 5)])] if focus == "colliding-writers" else [(c, _draw_variant(ch, "mid")) for c, _ in spec]
             world.edit_plan = (1 + ch.draw("edit-at-step", 14), espec)
         procs = [world.spawn("c%d" % i, bytecode=ch.chance("bytecode-on", 1, 2)) for i in range(nproc)]
         for p in procs:
             if ch.chance("python -O", 1, 8):
                 p.optimize = 1
                 st["probe:process-under-python-O"] += 1
-        if not focus and ch.chance("fileless-modules", 1, 10):
+        if focus != "colliding-writers" and ch.chance("fileless-modules", 1, 10):
             for p in procs:
                 p.fileless = True
             st["probe:fileless-module"] += 1
@@ -1138,11 +1223,12 @@ class CacheConcEngine(CacheEngineBase):
 
     def enum_pairs(self, tier):
         """(prior variant or None, victim variant, byte level) scenarios"""
-        pri = [None] + VNAMES
+        names = VNAMES[:17] + ["v19", "v24"]      # the parameter pairs v18-v32 are represented by two of them
+        pri = [None] + names
         pairs = []
         same_size = ["v1", "v2", "v3", "v4", "v5"]
         for a in pri:
-            for b in VNAMES:
+            for b in names:
                 if b == "v10":
                     continue            # never touches the cache
                 level = "stride"
